@@ -504,6 +504,18 @@ class Gen:
             op = self.emit('cmp', rng.choice(['=', '=', '<', '>', '<=', '>=',
                                               '<>', '!=']), 'opt')
             b = self.expr(depth, 'opt')
+            if b[2] == 'typed' and cfg.tzcast and rng.random() < 0.3 \
+                    and self.s.toks[b[0]].text.upper() != 'INTERVAL':
+                # DATE/TIMESTAMP '...' AT TIME ZONE 'UTC' as the right
+                # operand (only here, where no alias can follow: a typed
+                # literal + AT TIME ZONE + AS alias is finding D27)
+                zone = rng.choice(["'UTC'", "'Europe/Berlin'"])
+                l = self.emit('kw', 'AT TIME ZONE ' + zone, 'req',
+                              ['AT', 'TIME', 'ZONE', zone])
+                self.s.features.add('tzcast')
+                self.s.features.add('typed-tz')
+                self.s.comps.append((a, op, (b[0], b[1], 'typed-tz')))
+                return a[0], l
             self.s.comps.append((a, op, b))
             return a[0], b[1]
         if x < 0.6:
